@@ -117,17 +117,18 @@ def parseExp : Str → Option Int
 /-- `[+-]?(D+(.D*)?|.D+)([eE][+-]?D+)?` on an already stripped string → (mantissa, exponent) -/
 def parseFloatStripped (s : Str) : Option (Int × Int) :=
   let (neg, r) := takeSign s
-  let (ip, r1) := r.span isDigit
-  match r1 with
+  let ip := r.takeWhile isDigit
+  match r.dropWhile isDigit with
   | '.' :: r2 =>
-    let (fp, r3) := r2.span isDigit
+    let fp := r2.takeWhile isDigit
+    let r3 := r2.dropWhile isDigit
     if ip.isEmpty && fp.isEmpty then none else
     match parseExp r3 with
     | some x => some (applySign neg (digitsVal (ip ++ fp)), x - (fp.length : Int))
     | none => none
   | _ =>
     if ip.isEmpty then none else
-    match parseExp r1 with
+    match parseExp (r.dropWhile isDigit) with
     | some x => some (applySign neg (digitsVal ip), x)
     | none => none
 
@@ -200,7 +201,8 @@ def f1ok (c : Char) : Bool := c != ' ' && c != ':'
 /-- `([^ .:]+)\s*$` anchored at the head of `s`: greedy run, the rest must be white space
 (a shorter run cannot succeed when the greedy one fails). -/
 def field0At (s : Str) : Option Str :=
-  let (g, rest) := s.span f0ok
+  let g := s.takeWhile f0ok
+  let rest := s.dropWhile f0ok
   if g.isEmpty then none else if rest.all isSpace then some g else none
 
 /-- `RE_LINE_FIELD_0 = ^\s*([^ .:]+)\s*$`: `\s*` is greedy and backtracks one character at a time. -/
@@ -215,7 +217,8 @@ def field0 : Str → Option Str
 
 /-- `RE_LINE_FIELD_1 = ^([^ :]+)*(.+)*$` (always matches a one-line string): the two groups, `None` when empty. -/
 def field1 (s : Str) : Option Str × Option Str :=
-  let (g1, g2) := s.span f1ok
+  let g1 := s.takeWhile f1ok
+  let g2 := s.dropWhile f1ok
   (if g1.isEmpty then none else some g1, if g2.isEmpty then none else some g2)
 
 /-- `line_to_sect_line(line)`; `line` is already stripped by the caller. -/
